@@ -24,3 +24,16 @@ PROPS['C04'] = {
     'assumptions': A_COMMON,
     'not_decided': [],
 }
+
+PROPS['C19'] = {
+    'level': 'proof', 'claimed': True,
+    'claim': 'complete symbolic execution of package cmd\'s initialisation (variable initialisers and every init() in Go\'s order) under the pflag contract "XxxVar[P](p,..,value,..) ensures *p == value"; one obligation per registered option: the variable\'s value after all registrations equals the documented default. Exhaustive over all commands and options, whatever they are at the time of the run',
+    'level_note': 'relative to the pflag/cobra contract (registration assigns the default; help prints DefValue; nothing else writes the option variables before flag parsing), go/ssa init order, the SMT solvers',
+    'packages': ['./cmd'],
+    'functions': [],
+    'special': ['c19'],
+    'trusted_base': TB_COMMON + ['spf13/pflag: (*FlagSet).TVar[P] assigns *p = value at registration and shows value as the default', 'spf13/cobra: Flags()/PersistentFlags() identity per command'],
+    'assumptions': A_COMMON + ['RunE bodies may rewrite option variables after parsing (e.g. rootCpus clamped to NumCPU): not part of the property'],
+    'not_decided': ['what each RunE does with the value; PersistentPreRun rewriting seed'],
+    'technique': 'contract-based deductive verification: symbolic execution of the real init() SSA under the pflag contract, equalities discharged by z3/cvc5',
+}
